@@ -64,6 +64,7 @@ type runObs struct {
 	regs    cpuh.Regs
 	writes  string
 	logs    int
+	lines   []string
 	onpc    []uint32
 	wdm     []byte
 	maxA    uint32
@@ -142,6 +143,7 @@ func runSystem(c runCase) (o runObs) {
 	o.maxA = mem.MaxA
 	if w != nil {
 		o.logs = w.writes
+		o.lines = w.lines
 	}
 	s.CPU.OnPC, s.CPU.OnWDM, s.Logger = nil, nil, nil
 	return
@@ -190,6 +192,7 @@ type replay struct {
 	writes string
 	cycles uint64
 	iters  int
+	lines  []string // primary only: DisassembleCurrentPC at the top of every iteration
 	panic  string
 }
 
@@ -200,10 +203,12 @@ func replayCase(c runCase, variant string) (rp replay) {
 	}
 	var step func() (int, bool, string)
 	var get func() cpuh.Regs
+	var dis func() string
 	if variant == "p" {
 		p := cpuh.NewPrimary(mem)
 		p.Set(c.regs)
 		step, get = p.Step, p.Get
+		dis = func() string { return string(p.CPU.DisassembleCurrentPC(nil)) }
 	} else {
 		p := cpuh.NewAlt(mem)
 		p.Set(c.regs)
@@ -211,6 +216,9 @@ func replayCase(c runCase, variant string) (rp replay) {
 	}
 	for rp.cycles < c.max {
 		rp.iters++
+		if dis != nil && c.logger && len(rp.lines) < 4096 {
+			rp.lines = append(rp.lines, dis())
+		}
 		g := get()
 		pc := uint32(g.RK)<<16 | uint32(g.PC)
 		if pc == c.target {
@@ -443,6 +451,20 @@ func runRunUntil() {
 				}
 				if string(o.wdm) != string(expW) {
 					viol("OnWDM did not receive the WDM operand bytes", fmt.Sprintf("%x", expW), fmt.Sprintf("%x", o.wdm))
+				}
+			}
+			if cc.logger && variant == "p" {
+				for k := 0; k < len(o.lines) && k < len(rp.lines); k++ {
+					if o.lines[k] != rp.lines[k] {
+						rep.Add(report.Finding{Property: "C14", Kind: "violation", Clause: fmt.Sprintf("trace line %d is not the disassembly of the instruction about to execute", k+1), Input: in, Expected: rp.lines[k], Actual: o.lines[k]})
+						break
+					}
+				}
+				if o.logs != rp.iters {
+					rep.Add(report.Finding{Property: "C14", Kind: "violation", Clause: "Logger.Write count is not one per loop iteration", Input: in, Expected: fmt.Sprint(rp.iters), Actual: fmt.Sprint(o.logs)})
+				}
+				if o.regs.Canon() != rp.final.Canon() || o.writes != rp.writes {
+					rep.Add(report.Finding{Property: "C14", Kind: "violation", Clause: "running with a Logger changed the final state (compared with the Logger-free replay)", Input: in, Expected: rp.final.Canon() + "|" + rp.writes, Actual: o.regs.Canon() + "|" + o.writes})
 				}
 			}
 			if cc.logger && o.logs != rp.iters {
